@@ -296,18 +296,79 @@ pub struct Instance {
     pub pis: Vec<u64>,
 }
 
-/// Draw a definition of a recurrence system together with a trace that satisfies it.
-pub fn gen_instance(r: &mut Rng, log_n: usize, max_degree: usize, no_constraints_ok: bool) -> Instance {
+/// A recurrence system independent of the trace length: the same definition can be instantiated
+/// with traces of any power-of-two length (needed by the variable-degree recursive verifier).
+#[derive(Clone, Debug, PartialEq, Serialize, Deserialize)]
+pub struct Blueprint {
+    pub def: Def,
+    pub n_state: usize,
+    pub updates: Vec<Vec<Term>>,
+    pub derived: Vec<(usize, Vec<Term>)>,
+    pub init: Vec<u64>,
+    /// per public input: None (unconstrained) or (is_first_row, column)
+    pub pi_specs: Vec<Option<(bool, usize)>>,
+    pub free_seed: u64,
+}
+
+fn eval_terms(f: &Vec<Term>, row: &Vec<u64>) -> u64 {
+    let mut acc = 0;
+    for t in f {
+        let mut m = t.coef % rm::P;
+        for v in &t.vars {
+            if let Var::L(i) = v {
+                m = rm::mul(m, row[*i]);
+            }
+        }
+        acc = rm::add(acc, m);
+    }
+    acc
+}
+
+impl Blueprint {
+    pub fn instantiate(&self, log_n: usize) -> Instance {
+        let n = 1usize << log_n;
+        let cols = self.def.cols;
+        let mut r = Rng::new(self.free_seed);
+        let mut rows: Vec<Vec<u64>> = Vec::with_capacity(n);
+        let mut cur = self.init.clone();
+        for _ in 0..n {
+            for (c, g) in &self.derived {
+                cur[*c] = eval_terms(g, &cur);
+            }
+            rows.push(cur.clone());
+            let mut nxt: Vec<u64> = (0..cols).map(|_| r.felt()).collect();
+            for i in 0..self.n_state {
+                nxt[i] = eval_terms(&self.updates[i], &cur);
+            }
+            cur = nxt;
+        }
+        let mut pv: Vec<u64> = Vec::new();
+        let mut rp = Rng::new(self.free_seed ^ 0x5151);
+        for spec in &self.pi_specs {
+            pv.push(match spec {
+                Some((true, c)) => rows[0][*c],
+                Some((false, c)) => rows[n - 1][*c],
+                None => rp.felt_biased(),
+            });
+        }
+        Instance { def: self.def.clone(), log_n, rows, pis: pv }
+    }
+}
+
+pub fn gen_blueprint(r: &mut Rng, max_degree: usize, no_constraints_ok: bool) -> Blueprint {
     let (cols, pis) = *r.pick(&SHAPES);
-    let n = 1usize << log_n;
     if no_constraints_ok && r.chance(1, 12) {
-        // a definition without constraints: no quotient polynomial at all
-        let rows: Vec<Vec<u64>> = (0..n).map(|_| (0..cols).map(|_| r.felt()).collect()).collect();
-        let pv: Vec<u64> = (0..pis).map(|_| r.felt_biased()).collect();
-        return Instance { def: Def { cols, pis, constraints: vec![], degree: 0, lookups: vec![] }, log_n, rows, pis: pv };
+        return Blueprint {
+            def: Def { cols, pis, constraints: vec![], degree: 0, lookups: vec![] },
+            n_state: 0,
+            updates: vec![],
+            derived: vec![],
+            init: (0..cols).map(|_| r.felt()).collect(),
+            pi_specs: vec![None; pis],
+            free_seed: r.u64(),
+        };
     }
     let degree = r.range(1, max_degree.max(1));
-    // state columns evolve by a recurrence; the rest is derived or free
     let n_state = r.range(1, cols.min(4));
     let mut constraints = Vec::new();
     let mut updates: Vec<Vec<Term>> = Vec::new();
@@ -318,7 +379,6 @@ pub fn gen_instance(r: &mut Rng, log_n: usize, max_degree: usize, no_constraints
             let d = r.range(0, degree);
             f.push(Term { coef: if r.chance(1, 2) { 1 } else { r.felt_biased() }, vars: (0..d).map(|_| Var::L(r.usize(n_state))).collect() });
         }
-        // at least one term of the declared degree somewhere
         if i == 0 {
             f.push(Term { coef: 1 + r.below(5), vars: (0..degree).map(|_| Var::L(r.usize(n_state))).collect() });
         }
@@ -329,7 +389,6 @@ pub fn gen_instance(r: &mut Rng, log_n: usize, max_degree: usize, no_constraints
         }
         constraints.push(Cons { kind: Kind::Transition, poly });
     }
-    // derived columns: an every-row constraint  L(c) - g(L state) = 0
     let mut derived: Vec<(usize, Vec<Term>)> = Vec::new();
     for c in n_state..cols {
         if r.chance(1, 2) {
@@ -343,58 +402,34 @@ pub fn gen_instance(r: &mut Rng, log_n: usize, max_degree: usize, no_constraints
             derived.push((c, g));
         }
     }
-    // trace
-    let eval_terms = |f: &Vec<Term>, row: &Vec<u64>| -> u64 {
-        let mut acc = 0;
-        for t in f {
-            let mut m = t.coef % rm::P;
-            for v in &t.vars {
-                if let Var::L(i) = v {
-                    m = rm::mul(m, row[*i]);
-                }
-            }
-            acc = rm::add(acc, m);
-        }
-        acc
-    };
-    let mut rows: Vec<Vec<u64>> = Vec::with_capacity(n);
-    let mut cur: Vec<u64> = (0..cols).map(|_| r.felt_biased()).collect();
-    for _ in 0..n {
-        for (c, g) in &derived {
-            cur[*c] = eval_terms(g, &cur);
-        }
-        rows.push(cur.clone());
-        let mut nxt: Vec<u64> = (0..cols).map(|_| r.felt()).collect();
-        for i in 0..n_state {
-            nxt[i] = eval_terms(&updates[i], &cur);
-        }
-        cur = nxt;
-    }
-    // public inputs tied to the first and last rows
-    let mut pv: Vec<u64> = (0..pis).map(|_| r.felt_biased()).collect();
+    let init: Vec<u64> = (0..cols).map(|_| r.felt_biased()).collect();
+    let mut pi_specs = Vec::new();
     for k in 0..pis {
         match r.below(3) {
             0 => {
                 let c = r.usize(n_state);
-                pv[k] = rows[0][c];
+                pi_specs.push(Some((true, c)));
                 constraints.push(Cons { kind: Kind::First, poly: vec![Term { coef: 1, vars: vec![Var::L(c)] }, Term { coef: rm::P - 1, vars: vec![Var::Pi(k)] }] });
             }
             1 => {
                 let c = r.usize(cols);
-                pv[k] = rows[n - 1][c];
+                pi_specs.push(Some((false, c)));
                 constraints.push(Cons { kind: Kind::Last, poly: vec![Term { coef: 1, vars: vec![Var::L(c)] }, Term { coef: rm::P - 1, vars: vec![Var::Pi(k)] }] });
             }
-            _ => {} // an unconstrained public input (still part of the statement / transcript)
+            _ => pi_specs.push(None),
         }
     }
     if r.chance(1, 3) {
-        // a first-row constraint against a constant
+        // a first-row constraint against a constant (the initial state is part of the blueprint)
         let c = r.usize(n_state);
-        constraints.push(Cons { kind: Kind::First, poly: vec![Term { coef: 1, vars: vec![Var::L(c)] }, Term { coef: rm::neg(rows[0][c]), vars: vec![] }] });
+        constraints.push(Cons { kind: Kind::First, poly: vec![Term { coef: 1, vars: vec![Var::L(c)] }, Term { coef: rm::neg(init[c]), vars: vec![] }] });
     }
-    let def = Def { cols, pis, constraints, degree, lookups: vec![] };
-    debug_assert!(def.check(&rows, &pv).is_none());
-    Instance { def, log_n, rows, pis: pv }
+    Blueprint { def: Def { cols, pis, constraints, degree, lookups: vec![] }, n_state, updates, derived, init, pi_specs, free_seed: r.u64() }
+}
+
+/// Draw a definition of a recurrence system together with a trace that satisfies it.
+pub fn gen_instance(r: &mut Rng, log_n: usize, max_degree: usize, no_constraints_ok: bool) -> Instance {
+    gen_blueprint(r, max_degree, no_constraints_ok).instantiate(log_n)
 }
 
 /// Dispatch on the (COLUMNS, PUBLIC_INPUTS) shape of a definition.
